@@ -13,6 +13,7 @@ import (
 
 	"github.com/cenkalti/backoff/v4"
 	"github.com/go-faster/errors"
+	"github.com/gotd/log"
 
 	"github.com/gotd/td/pool"
 
@@ -85,6 +86,12 @@ func (e event) String() string {
 		return fmt.Sprintf("end:%d", e.epoch)
 	case "back":
 		return fmt.Sprintf("back:%d:%d:%s", e.req, e.epoch, e.note)
+	case "rd":
+		return fmt.Sprintf("rd:%d:%d:%s", e.req, e.epoch, e.note)
+	case "grace":
+		return fmt.Sprintf("grace:%d", e.req)
+	case "dead":
+		return fmt.Sprintf("dead:%d:%s", e.epoch, e.note)
 	}
 	return e.kind
 }
@@ -101,6 +108,7 @@ type scen struct {
 	sess  map[int64]int     // server-side session id -> epoch (order of first appearance)
 	arr   map[int]int       // request -> number of arrivals
 	msgOf map[int64]int     // msg id -> request
+	msgEp map[int64]int     // msg id -> connection epoch on which the server received it
 	errs  map[int]string    // request -> error text
 	bad   []string
 
@@ -110,6 +118,93 @@ type scen struct {
 	lastConn  any
 	doom      int // number of upcoming dials that are killed while they connect
 	closedEv  bool
+	readKilled bool // kill=ackread / resread: the kill at the moment of the read has happened
+}
+
+// kill kills the primary connection in place now, the way the scenario says.
+func (s *scen) kill() {
+	s.mu.Lock()
+	k := s.conns[len(s.conns)-1]
+	s.log = append(s.log, event{kind: "kill"})
+	s.doom = s.plan.flaky
+	s.cond.Broadcast()
+	s.mu.Unlock()
+	k.kill(s.plan.mode)
+}
+
+// read: the client has read from the wire an acknowledgement (what = "ack") or the result ("res") that the
+// server sent for the message msgID, and is about to hand it to its rpc engine (the calling goroutine
+// is the connection's handler of that message).  With kill=ackread / kill=resread the connection is
+// killed at exactly this moment and the handler is held for a while (until the invocation came back
+// from the dead connection, at most a second): an implementation that closes the engine of a dead
+// connection without waiting for the messages it has already read would now fail the invocation over
+// and send the acknowledged request again.
+func (s *scen) read(what string, ids []int64) {
+	n := len(s.plan.first)
+	s.mu.Lock()
+	var mine []int
+	for _, id := range ids {
+		if r, ok := s.msgOf[id]; ok {
+			s.log = append(s.log, event{kind: "rd", req: r, epoch: s.msgEp[id], note: what})
+			if r < n {
+				mine = append(mine, r)
+			}
+		}
+	}
+	s.cond.Broadcast()
+	trigger := len(mine) > 0 && !s.readKilled &&
+		((what == "ack" && s.plan.kill == "ackread") || (what == "res" && s.plan.kill == "resread"))
+	if trigger {
+		s.readKilled = true
+	}
+	s.mu.Unlock()
+	if what == "ack" && s.plan.kill == "acked" {
+		// kill=acked waits until the client's engine has registered the acknowledgement ("seen"); if the
+		// engine never does although the client has read it, go on after a grace period
+		for _, r := range mine {
+			r := r
+			time.AfterFunc(2*time.Second, func() { s.add(event{kind: "grace", req: r}) })
+		}
+	}
+	if !trigger {
+		return
+	}
+	s.kill()
+	s.waitQuietFor(time.Second, func() bool {
+		if s.closedEv {
+			return true
+		}
+		for _, e := range s.log {
+			if e.kind == "back" && e.note == "retry" {
+				for _, r := range mine {
+					if e.req == r {
+						return true
+					}
+				}
+			}
+		}
+		return false
+	})
+}
+
+// scenLogger is the client's logger: the debug line that mtproto writes when it has decoded a msgs_ack
+// ("Received ack", before rpc.Engine.NotifyAcks) is the observation point "the client has read the
+// acknowledgement", without a call site in the source.
+type scenLogger struct{ s *scen }
+
+func (scenLogger) Enabled(_ context.Context, l log.Level) bool { return l == log.LevelDebug }
+
+func (l scenLogger) Log(_ context.Context, _ log.Level, msg string, attrs ...log.Attr) {
+	if msg != "Received ack" {
+		return
+	}
+	for _, a := range attrs {
+		if a.Key == "msg_ids" {
+			if ids, ok := a.Value.Any().([]int64); ok {
+				l.s.read("ack", append([]int64(nil), ids...))
+			}
+		}
+	}
 }
 
 func (s *scen) add(e event) {
@@ -342,13 +437,18 @@ func newWorld(ctx context.Context) (*world, error) {
 		return nil, err
 	}
 	rpc.VerifC24SetHook(func(name string, id int64) {
-		if name != "do.wait" {
+		if name != "do.wait" && name != "notify.invoke" {
 			return
 		}
 		w.mu.Lock()
 		s := w.byMsgID[id]
 		w.mu.Unlock()
 		if s == nil {
+			return
+		}
+		if name == "notify.invoke" {
+			// the connection's handler goroutine is about to deliver the result it has read from the wire
+			s.read("res", []int64{id})
 			return
 		}
 		s.mu.Lock()
@@ -410,7 +510,9 @@ func (w *world) clientHook(ctx context.Context, point string, args ...any) {
 		s.mu.Lock()
 		ep, known := s.connEpoch[args[1]]
 		if !known {
-			ep = s.epochs // a connection object never seen in a replacement: the one in place at the start
+			// a connection object never seen in a replacement since the scenario began: the one that was in
+			// place at the start (every later one is registered by "conn.replaced" before it can be used)
+			ep = 0
 			s.connEpoch[args[1]] = ep
 		}
 		s.log = append(s.log, event{kind: "back", req: tag.r, epoch: ep, note: kind})
@@ -426,9 +528,11 @@ func (w *world) clientHook(ctx context.Context, point string, args ...any) {
 }
 
 // waitQuiet waits (bounded, without recording a watchdog failure) until pred holds.
-func (s *scen) waitQuiet(pred func() bool) {
-	deadline := time.Now().Add(10 * time.Second)
-	timer := time.AfterFunc(10*time.Second, func() { s.mu.Lock(); s.cond.Broadcast(); s.mu.Unlock() })
+func (s *scen) waitQuiet(pred func() bool) { s.waitQuietFor(10*time.Second, pred) }
+
+func (s *scen) waitQuietFor(d time.Duration, pred func() bool) {
+	deadline := time.Now().Add(d)
+	timer := time.AfterFunc(d, func() { s.mu.Lock(); s.cond.Broadcast(); s.mu.Unlock() })
 	defer timer.Stop()
 	s.mu.Lock()
 	defer s.mu.Unlock()
@@ -467,6 +571,7 @@ func (w *world) onSend(server *tgtest.Server, req *tgtest.Request) error {
 	s.arr[r]++
 	n := s.arr[r]
 	s.msgOf[req.MsgID] = r
+	s.msgEp[req.MsgID] = ep
 	s.log = append(s.log, event{kind: "arr", req: r, epoch: ep})
 	s.cond.Broadcast()
 	s.mu.Unlock()
@@ -477,12 +582,18 @@ func (w *world) onSend(server *tgtest.Server, req *tgtest.Request) error {
 	switch beh {
 	case "drop":
 		return nil
-	case "ack", "ackres":
+	case "ack", "ackres", "ackb":
 		s.add(event{kind: "ack", req: r, epoch: ep})
-		if err := server.SendAck(req.RequestCtx, req.Session, req.MsgID); err != nil {
+		ids := []int64{req.MsgID}
+		if beh == "ackb" {
+			// a batched msgs_ack: an id the client's engine does not wait for (a message of an hour ago)
+			// comes before the id of the pending request
+			ids = []int64{req.MsgID - 3600<<32, req.MsgID}
+		}
+		if err := server.SendAck(req.RequestCtx, req.Session, ids...); err != nil {
 			return nil
 		}
-		if beh == "ack" {
+		if beh != "ackres" {
 			return nil
 		}
 	}
@@ -494,8 +605,8 @@ func (w *world) onSend(server *tgtest.Server, req *tgtest.Request) error {
 // scenario: n requests in flight; first[i] is what the server does on the first arrival of request i;
 // kill says when the primary connection is killed; end says what follows.
 type scenario struct {
-	first []string // drop | ack | ackres | res
-	kill  string   // none | before | arrived | acked | returned
+	first []string // drop | ack | ackb (batched msgs_ack, a stale id first) | ackres | res
+	kill  string   // none | before | arrived | acked | returned | ackread | resread (at the moment the client has read the acknowledgement / the result from the wire)
 	mode  string   // local | remote (how the connection is killed)
 	end   string   // reconnect | close
 	flaky int      // after the kill, this many replacement connections fail while they connect
@@ -523,7 +634,7 @@ type outcome struct {
 }
 
 func (w *world) run(ctx context.Context, id string, sc scenario) outcome {
-	s := &scen{id: id, plan: sc, w: w, sess: map[int64]int{}, arr: map[int]int{}, msgOf: map[int64]int{}, errs: map[int]string{}, connEpoch: map[any]int{}}
+	s := &scen{id: id, plan: sc, w: w, sess: map[int64]int{}, arr: map[int]int{}, msgOf: map[int64]int{}, errs: map[int]string{}, connEpoch: map[any]int{}, msgEp: map[int64]int{}}
 	s.cond = sync.NewCond(&s.mu)
 	w.mu.Lock()
 	w.scen[id] = s
@@ -630,8 +741,19 @@ func (w *world) run(ctx context.Context, id string, sc scenario) outcome {
 		Resolver:       resolver,
 		SessionStorage: &session.StorageMemory{},
 		DCList:         cl.List(),
+		Logger:         scenLogger{s},
 		NoUpdates:      true,
 		OnDead: func(err error) {
+			// which task of the connection noticed the death first: the read loop (it returns only after the
+			// handlers of the messages already read have finished) or another one (the engine is closed at once)
+			who := "other"
+			if strings.Contains(err.Error(), "task readLoop:") {
+				who = "read"
+			}
+			s.mu.Lock()
+			s.log = append(s.log, event{kind: "dead", epoch: s.epochs, note: who})
+			s.cond.Broadcast()
+			s.mu.Unlock()
 			if os.Getenv("VERIF_DEBUG") != "" {
 				fmt.Fprintln(os.Stderr, "c29 debug: connection dead:", err)
 			}
@@ -652,14 +774,7 @@ func (w *world) run(ctx context.Context, id string, sc scenario) outcome {
 	cctx, ccancel := context.WithCancel(ctx)
 	defer ccancel()
 	n := len(sc.first)
-	kill := func() {
-		s.mu.Lock()
-		k := s.conns[len(s.conns)-1]
-		s.log = append(s.log, event{kind: "kill"})
-		s.doom = sc.flaky
-		s.mu.Unlock()
-		k.kill(sc.mode)
-	}
+	kill := s.kill
 	invoke := func(ictx context.Context, r int) {
 		s.add(event{kind: "inv", req: r})
 		ictx = context.WithValue(ictx, reqKeyT{}, reqTag{s, r})
@@ -701,7 +816,7 @@ func (w *world) run(ctx context.Context, id string, sc scenario) outcome {
 				// every request whose first arrival is acknowledged has been seen acknowledged by the client
 				want := 0
 				for _, f := range sc.first {
-					if f == "ack" || f == "ackres" {
+					if f == "ack" || f == "ackres" || f == "ackb" {
 						want++
 					}
 				}
@@ -714,7 +829,7 @@ func (w *world) run(ctx context.Context, id string, sc scenario) outcome {
 						if e.kind == "ack" {
 							acked[e.req] = true
 						}
-						if e.kind == "seen" && acked[e.req] {
+						if (e.kind == "seen" || e.kind == "grace") && acked[e.req] {
 							seen[e.req] = true
 						}
 					}
@@ -724,6 +839,11 @@ func (w *world) run(ctx context.Context, id string, sc scenario) outcome {
 			case "returned":
 				s.waitFor("all invocations return", returned(n))
 				kill()
+			case "ackread", "resread":
+				// the kill happens in the connection's handler goroutine (scen.read)
+				s.waitFor("the connection is killed when the client reads the acknowledgement / result", func(l []event) bool {
+					return count(l, func(e event) bool { return e.kind == "kill" }) >= 1
+				})
 			}
 			if sc.kill != "none" && sc.end == "reconnect" {
 				// keep the replacement connection busy: the test server drops idle connections after 30 s,
